@@ -293,6 +293,7 @@ def run(chk, parts=('L1', 'L2', 'L2b', 'L3')):
     if 'L3' in parts:
         l3(chk, fns)
         l5(chk, by)
+        from_u32_rule(chk, by, PREFIX + '-L8')
     return ('Typestate analysis of impl Lexer over structured HIR: availability of characters before consume().unwrap(), consumed-vs-appended characters of every escape arm, '
             'units of column arithmetic, Indent/Dedent pairing. Termination of the token loop and columns of multi-line tokens are not decided.'), {}
 
@@ -564,6 +565,82 @@ def l6(chk, by):
         return out
     scan(f['body'], None)
     chk.need(exits >= 1, 'lex_multi_line_comment: no `return Ok(..)` exit found')
+
+
+def from_u32_rule(chk, by, rule):
+    """char::from_u32(n).unwrap() is total only for n below the surrogate range"""
+    chk.rule(rule, 'every `char::from_u32(n).unwrap()` of the lexer has n < 0xD800: n is parsed (from_str_radix, radix R) from a String that receives at most N digits '
+                   '(loops `for _ in 0..N`, N evaluated as the maximum over the branches that define it), so R^N - 1 < 0xD800; a four-digit `\\uD800` would make the lexer panic')
+    sites = 0
+
+    def vmax(e, env, depth=0):
+        if depth > 8:
+            return None
+        e = T.peel(e)
+        k = e.get('k')
+        v = T.lit_int(e)
+        if v is not None:
+            return v
+        if k == 'Local' and e['n'] in env:
+            return vmax(env[e['n']], env, depth + 1)
+        if k == 'If' and 'e' in e:
+            a, b = vmax(e['t'], env, depth + 1), vmax(e['e'], env, depth + 1)
+            return None if a is None or b is None else max(a, b)
+        if k == 'Match':
+            vs = [vmax(a['b'], env, depth + 1) for a in e['arms']]
+            return None if any(x is None for x in vs) else max(vs)
+        if k == 'Block' and 'e' in e:
+            return vmax(e['e'], env, depth + 1)
+        if k == 'Cast':
+            return vmax(e['x'], env, depth + 1)
+        return None
+    for nm, f in sorted(by.items()):
+        env = VS.let_env(f)
+        for n in T.walk(f['body']):
+            if not (n.get('k') == 'MCall' and n['n'] in ('unwrap', 'expect')):
+                continue
+            c = T.peel(n['r'])
+            if not (c.get('k') == 'Call' and (c.get('fn') or '').endswith('::from_u32') and c['a']):
+                continue
+            sites += 1
+            arg = T.peel(c['a'][0])
+            src = arg
+            if arg.get('k') == 'MCall' and arg['n'] in ('unwrap', 'expect', 'unwrap_or', 'unwrap_or_default'):
+                src = T.peel(arg['r'])
+            bound = None
+            why = 'the argument `%s` is not a from_str_radix of a bounded digit string' % T.show(arg)[:40]
+            if src.get('k') == 'Call' and (src.get('fn') or '').endswith('::from_str_radix') and len(src['a']) == 2:
+                radix = T.lit_int(T.peel(src['a'][1]))
+                txt = T.peel(src['a'][0])
+                if txt.get('k') == 'Local' and radix:
+                    # pushes to that String: each inside a `for _ in a..b` loop (digits = b - a), or a single push
+                    digits = 0
+                    unknown = False
+                    for m in T.walk(f['body']):
+                        if m.get('k') == 'Match' and m.get('src') == 'ForLoopDesugar':
+                            pushes = [x for x in T.calls(m) if x.get('k') == 'MCall' and x['n'] in ('push', 'push_str') and T.peel(x['r']).get('n') == txt['n']]
+                            if not pushes:
+                                continue
+                            rng = T.peel(m['x'])
+                            if not (rng.get('k') == 'Call' and (rng.get('fn') or '').endswith('into_iter')):
+                                continue      # the inner `match Iterator::next(&iter)` of the same desugared loop
+                            rng = T.peel(rng['a'][0]) if rng.get('k') == 'Call' and rng.get('a') else rng
+                            flds = {x['n']: x['x'] for x in rng.get('f', [])} if rng.get('k') == 'Struct' else {}
+                            lo, hi = (vmax(flds['start'], env) if 'start' in flds else None), (vmax(flds['end'], env) if 'end' in flds else None)
+                            if lo is None or hi is None or any(x['n'] == 'push_str' for x in pushes):
+                                unknown = True
+                            else:
+                                digits += (hi - lo + (1 if (rng.get('d') or '').endswith('RangeInclusive') else 0)) * len(pushes)
+                    if not unknown and digits > 0:
+                        bound = radix ** digits - 1
+                        why = 'at most %d digit(s) in radix %d: n <= %#x' % (digits, radix, bound)
+            key = '%s:from_u32' % nm
+            if bound is not None and bound < 0xD800:
+                chk.ok(rule, key, sample='%s: %s' % (nm, why))
+            else:
+                chk.bad(rule, nm, 'from_u32-unwrap', '%s unwraps char::from_u32(..) although %s: values in 0xD800..=0xDFFF (and above 0x10FFFF) are not characters, so an escape such as '
+                        '`"\\ud800"` makes the lexer panic instead of reporting a syntax error' % (nm, why), LEX, n.get('l'))
+    chk.count('char::from_u32(..).unwrap() sites', sites)
 
 
 def l7(chk, by):
